@@ -12,6 +12,8 @@ CLAIMS = {
          "floats are SpecFloat data (SFcompare), `as f64` is binary_normalize; int/float equality for |x|<=2^53 is checked by the correspondence and the law check, not yet a theorem; the State::Truthy marker is outside the quantifier (proved asymmetric).", "DESIGN.md §6 C11"),
  "C15": ("Theorems in coq/props/C15.v (no axioms, no real numbers) about a transcription of stdlib/filters/math.rs: plus/minus/times/abs/at_least/at_most on integers equal the mathematical result when it fits in 64 bits and otherwise continue as the IEEE operation on the converted operands (never a wrapped integer); truncated division law with remainder bound, the single non-fitting quotient, division by zero as an error for integer/float/string zeros; the float path is SpecFloat's IEEE binary64 operation; numeric strings parse back to the integer they print (decimal print/parse round trip proved); floor/ceil/round of every finite double m*2^e are the neighbouring integers in the documented direction (ties away from zero) as integer-scaled inequalities. Correspondence: all pairs of the 64-bit boundary set as integers/strings/floats for each of the eleven filters, all k/8 pairs, random 64-bit operands and doubles, type-confused operands, on the debug and the release build, against the extracted model and an independent big-integer/IEEE reference.",
          "f64::from_str is an oracle (table observed from the implementation each run); % on doubles is an exact fmod written in the model; round with decimal places is multiply/round/divide in doubles with 10.0.powi(n) modelled as square-and-multiply, covered by the correspondence only.", "DESIGN.md §6 C15"),
+ "C16": ("Theorems in coq/props/C16.v (no axioms) about a transcription of html.rs/url.rs whose entity table, escaped-character set and percent-encoding set are REGENERATED from the source on every run (tools/translate.py -> coq/gen/Consts.v; consts_match pins them to the five entities and the unreserved set of the property): escape output is safe and unescape inverts it; escape_once is safe, keeps existing entities and is idempotent; UTF-8 decode(encode s) = s for all scalar-value strings; url_encode emits only unreserved characters and %XY with upper-case hex; url_decode(url_encode s) = s; failures are error values; strip_html output has no '<' followed by a '>'. Correspondence: exhaustive strings over the entity/URL/tag alphabets (<=4, thorough <=5) plus random longer strings against the extracted model and an independent Python reference (regex/urllib).",
+         "the regex crate's semantics (leftmost, lazy, (?is), simple case folding) and the percent-encoding crate are modelled by hand (explicit scanners) and validated by the correspondence only; the functional form of escape() (skip counter) stands for the byte-index loop.", "DESIGN.md §6 C16"),
 }
 def main():
     props = [json.loads(l) for l in open(os.path.join(V, "properties.jsonl"))]
